@@ -70,10 +70,12 @@ CHECKS = {
               "C04_preference (decision table: SAFECOOKIE before COOKIE before password before NULL, only a 32-byte cookie, password reached only when "
               "no cookie method is usable) + C04_order_insensitive (depends on the set of methods only) + C04_password_consulted, C04_safecookie "
               "(the proof is written only after the server hash over cookie and both nonces was verified, and it is the controller-to-server HMAC — "
-              "never the cookie) + C04_safecookie_exact. Correspondence: real protocol with real cookie files, real HMAC-SHA256 and pinned nonce "
+              "never the cookie) + C04_safecookie_exact, C04_ready_exactly_once (whenever the server answers or hangs up on everything it is asked), C04_success_after_accept; "
+              "C04_cookiefile_roundtrip (Props/C04b, model TxV.Unescape of unescape_quoted_string with the code's two regular expressions — including re.sub skipping the second of two adjacent escapes — "
+              "and Python's unicode-escape codec for ASCII: for EVERY ASCII path, unescaping the quoted string Tor writes for it gives the path back). Correspondence: real protocol with real cookie files, real HMAC-SHA256 and pinned nonce "
               "against a scripted server over 65+ method lists x cookie conditions x providers x per-step behaviours."),
-        note=NOTE_COMMON + "HMAC is uninterpreted (collision-freedom appears as an explicit hypothesis in C04_safecookie_exact). The regex extraction of COOKIEFILE and "
-             "unescape_quoted_string are exercised through real paths (space, quote, backslash) but not modelled; malformed GETINFO replies during bootstrap are not in the script alphabet.",
+        note=NOTE_COMMON + "HMAC is uninterpreted (collision-freedom appears as an explicit hypothesis in C04_safecookie_exact). The regex that cuts the COOKIEFILE word out of the reply is exercised through real paths (space, quote, backslash) but not modelled; "
+             "unescape_quoted_string is modelled without \\u / \\U / \\N escapes (Tor writes none) and compared with the function itself on every text of up to 4 / 6 characters over a critical alphabet; malformed GETINFO replies during bootstrap are not in the script alphabet.",
         technique="Lean 4: exhaustive case analysis of the authentication step machine for all scripts + decision-table theorems; differential correspondence",
         ref='§4 C04'),
     'C05': dict(
